@@ -4,7 +4,7 @@ import os
 from vf import Inconclusive, parallel, require_clean, validate_traces, trace_slice, vfj_lines, b2s
 
 CLAIM = {
-    "text": "TLC exhaustively checks implementation-shaped models of both scanners (ScannerImm/ScannerBuf: every stream over {a,CR,LF} up to the bound, every chunking, stall and failure position, buffer sizes 1..4) for exact splitting, single error report, no read after the end, the end being final (Scan() called again: nothing read, returned or reported), buffer lifetime (no write under a handed-out view), refinement of the abstract Scanner and termination; ScannerBatch composes ScannerImm with the batching layer of batcher.go that sits directly on the scanner (the current batch as a view into a numbered backing array of slice headers, full / timer / final flushes, BatchStart, batches held by the channel or the consumer and released at any time, time passing inside Read or anywhere) and checks that no step writes a slot of a held batch, that every held batch still reads the lines start..start+n-1 of the byte stream, that the batches partition the scanner's lines in order with BatchStart the running count, and termination - with the negative controls 'backing array recycled after a timer flush' and 'after a full flush' refuted and 'after the final flush' passing. Every complete model behaviour is replayed on the real scanners (Scan/Bytes, ReadLine, with and without error callback, two more Scan() calls after the end, retained slices re-read at the end) and on the real batcher paths (syncReaderToBatcherWithTimeFlush through batchers.VerifOpenReaderToChan with a 10 ms interval and a scripted source whose pauses force timer flushes of partial batches, batch sizes 1..4 and 100, a prompt and a queue-everything consumer that hold EVERY batch to the end and re-read all lines; syncReaderToBatcher through OpenFilesToChan); seeded random real executions (incl. the 128 KiB production wiring, pausing sources, the production 250 ms path, several files per call) are validated by TLC against the abstract spec.",
+    "text": "TLC exhaustively checks implementation-shaped models of both scanners (ScannerImm/ScannerBuf: every stream over {a,CR,LF} up to the bound, every chunking, stall and failure position, buffer sizes 1..4) for exact splitting, single error report, no read after the end, the end being final (Scan() called again: nothing read, returned or reported), buffer lifetime (no write under a handed-out view), refinement of the abstract Scanner and termination; ScannerBatch composes ScannerImm with the batching layer of batcher.go that sits directly on the scanner (the current batch as a view into a numbered backing array of slice headers, full / timer / final flushes, BatchStart, batches held by the channel or the consumer and released at any time, time passing inside Read or anywhere) and checks that no step writes a slot of a held batch, that every held batch still reads the lines start..start+n-1 of the byte stream, that the batches partition the scanner's lines in order with BatchStart the running count, and termination - with the negative controls 'backing array recycled after a timer flush' and 'after a full flush' refuted and 'after the final flush' passing. Every complete model behaviour is replayed on the real scanners (Scan/Bytes, ReadLine, with and without error callback, two more Scan() calls after the end, retained slices re-read at the end) and on the real batcher paths (syncReaderToBatcherWithTimeFlush through batchers.VerifOpenReaderToChan with a 10 ms interval and a scripted source whose pauses force timer flushes of partial batches, batch sizes 1..4 and 100, a prompt and a queue-everything consumer that hold EVERY batch to the end and re-read all lines; syncReaderToBatcher through OpenFilesToChan); ScannerStall extends ScannerImm with the reader's script as a history, runs of several stalls in a row, a Read without room answered (0, nil) for ever, and a design space (no-progress guard none / total / consecutive with a budget; growth rule of the code / of the buffered variant): a stall changes nothing (StallNoop, StallReturns), the outcome of a script is that of the script without its stalls (StallLaw), Read is never asked for nothing (RoomToRead) and no buffer is allocated without new input (WorkBound), with 'stalls counted over the whole stream', 'consecutive stalls within the environment's bound' and 'buffered growth rule at buffer size 1' refuted and the same designs outside their failing range passing. Every TLC vector with stalls is replayed again with its stalls stretched to 150 / 1 100 / 12 000 in total; long stall histories (one run of 150..12 000 stalls, a stall before each of several hundred chunks, random runs; every scanner variant, buffer sizes 1, 2, 3 and larger) are recorded and validated by TLC; every scanner run is under a watchdog (a scan that does not return, confirmed by a second run alone with a longer deadline, is a violation: hang). seeded random real executions (incl. the 128 KiB production wiring, pausing sources, the production 250 ms path, several files per call) are validated by TLC against the abstract spec.",
     "note": "Bounded: exhaustive only within the stated stream length/alphabet/buffer and batch sizes; beyond that seeded random traces. Where a batch is cut is time-dependent and not part of the verdict (only: lines, order, BatchStart, 1 <= length <= batch size). Trusted: Go runtime, the scripted io.Reader of the harness, TLC.",
     "technique": "TLA+ refinement model checking (TLC) with negative controls + model-behaviour replay + trace validation",
 }
@@ -39,6 +39,60 @@ def bgen_cfg(maxlen, pb, timed):
     return ("INIT GInit\nNEXT GNext\nCONSTANTS Alphabet = {97, 10}\n MaxLen = %d\n BufSize = %d\n MaxStall = 0\n PBatch = %d\n"
             " Timed = %s\n ReuseOn = \"never\"\nINVARIANTS Dump\nCHECK_DEADLOCK FALSE\n" % (
                 maxlen, maxlen + 4, pb, "TRUE" if timed else "FALSE"))
+
+
+SINVS = INVS + " RoomToRead WorkBound StallReturns StallLaw ScriptOK"
+
+
+def stall_cfg(maxlen, buf, stall, guard="none", budget=0, grow="imm", invs=SINVS, props="Refines Terminates StallNoop", alpha=ALPHA):
+    return ("SPECIFICATION SSpec\nCONSTANTS Alphabet = %s\n MaxLen = %d\n BufSize = %d\n MaxStall = %d\n Guard = \"%s\"\n"
+            " Budget = %d\n GrowRule = \"%s\"\nINVARIANTS %s\n%sCHECK_DEADLOCK FALSE\n" % (
+                alpha, maxlen, buf, stall, guard, budget, grow, invs, ("PROPERTIES %s\n" % props) if props else ""))
+
+
+def stall_model_jobs(run, quick):
+    """B3 for stalls and progress (ScannerStall.tla): the code's design, the refuted designs, the harmless ones."""
+    jobs = []
+    small = "{97, 10}"
+    if quick:
+        cfgs = [(3, 1, 3, small), (3, 2, 2, small), (3, 3, 2, small)]
+    else:
+        cfgs = [(4, 1, 3, ALPHA), (4, 2, 3, ALPHA), (4, 3, 3, small), (3, 4, 4, small)]
+    for ml, b, ms, al in cfgs:
+        jobs.append(lambda ml=ml, b=b, ms=ms, al=al: ("smc", (ml, b, ms), run.tlc(
+            "ScannerStall", stall_cfg(ml, b, ms, alpha=al), workers=3, timeout=3000, coverage=(b == 1),
+            label="ScannerStall MaxLen=%d BufSize=%d MaxStall=%d (the code: no guard, growth pending+bufSize)" % (ml, b, ms))))
+    # refuted designs: (guard, budget, growth, BufSize, MaxStall, violated invariant)
+    negs = [("total", 3, "imm", 2, 1, "ErrOK"), ("total", 3, "imm", 2, 1, "StallLaw"), ("total", 3, "imm", 1, 1, "EndOK"),
+            ("consecutive", 2, "imm", 2, 2, "ErrOK"), ("none", 0, "buffered", 1, 1, "RoomToRead"),
+            ("none", 0, "buffered", 1, 1, "WorkBound")]
+    for g, bud, gr, b, ms, inv in negs:
+        jobs.append(lambda g=g, bud=bud, gr=gr, b=b, ms=ms, inv=inv: ("sneg", (g, bud, gr, b, inv), run.tlc(
+            "ScannerStall", stall_cfg(3, b, ms, g, bud, gr, inv, None, small), workers=2, timeout=3000,
+            label="ScannerStall Guard=%s Budget=%d GrowRule=%s BufSize=%d [%s] negative control: must be violated" % (g, bud, gr, b, inv))))
+    # the same designs where they cannot fail: a consecutive guard beyond the environment's bound; the buffered rule at sizes >= 2
+    for g, bud, gr, b, ms in [("consecutive", 3, "imm", 2, 2), ("none", 0, "buffered", 2, 1), ("none", 0, "buffered", 3, 1)]:
+        jobs.append(lambda g=g, bud=bud, gr=gr, b=b, ms=ms: ("smc", (3, b, ms), run.tlc(
+            "ScannerStall", stall_cfg(3, b, ms, g, bud, gr, alpha=small), workers=2, timeout=3000,
+            label="ScannerStall Guard=%s Budget=%d GrowRule=%s BufSize=%d MaxStall=%d (harmless control: must pass)" % (g, bud, gr, b, ms))))
+    # the plain models with runs of three stalls in a row
+    sl = 4 if quick else 5
+    for mod, b in (("ScannerImm", 2), ("ScannerBuf", 2)):
+        jobs.append(lambda mod=mod, b=b: ("mc", (mod, -b), run.tlc(mod, mc_cfg(sl, b, 3), workers=3, timeout=3000,
+                                                                  label="%s MaxLen=%d BufSize=%d MaxStall=3" % (mod, sl, b))))
+    return jobs
+
+
+def stall_model_result(run, kind, what, r):
+    if kind == "sneg":
+        if what[4] not in r.violated:
+            raise Inconclusive("negative control passed: ScannerStall %s does not violate %s\n%s" % (what, what[4], r.out[-2000:]))
+        return
+    require_clean(run, r, "ScannerStall %s" % (what,))
+    if r.coverage:
+        zero = [a for a in ("SGrow", "SRead") if r.coverage.get("ScannerStall." + a, (0, 0))[0] == 0]
+        if zero:
+            raise Inconclusive("vacuous model: ScannerStall actions never taken: %s" % zero)
 
 
 def batch_model_jobs(run, quick):
@@ -130,10 +184,52 @@ def batch_replay_report(run, res):
         raise Inconclusive("batcher replay did not realise the schedules: %s" % stats)
 
 
+def b2_report(run, tr, res, prefix, sample=False):
+    """verdict of one recorded-trace file validated by Scanner_Trace: every rejected trace is a violation"""
+    lines = open(tr).read().splitlines()
+    resets = [json.loads(x) for x in lines if '"event":"reset"' in x]
+    ntr = len(resets)
+    last_tid = resets[-1]["t"] if resets else 0
+    run.cov["traces_validated_against_impl"] += ntr
+    run.cov["evaluations"] += ntr
+    run.cov["distinct_nontrivial"] += ntr
+    run.cov[prefix.replace(":", "_") + "_events"] = res["consumed"]
+    if sample:
+        run.sample({"b2_trace_head": [json.loads(x) for x in lines[:6]]})
+    if not res["done"] and not any(b["t"] == last_tid for b in res["bad"]):
+        raise Inconclusive("last trace incomplete")
+    seen = {}
+    for bad in res["bad"]:
+        sl = trace_slice(tr, bad["t"])
+        ev = lines[bad["l"] - 1]
+        evj = json.loads(ev)
+        variant = json.loads(sl.splitlines()[0])["variant"]
+        sig = "%s:%s:%s" % (prefix, variant, evj["event"])
+        seen[sig] = seen.get(sig, 0) + 1
+        if seen[sig] > 5:
+            continue
+        path = run.save_replay("trace-%s-%d.ndjson" % (prefix.replace(":", "-"), bad["t"]), sl)
+        what = "path" if variant.startswith("batcher-") else "scanner"
+        if evj["event"] == "hang":
+            text = ("%s scanner (buffer size %s): Scan() did not return (watchdog, confirmed by a second run alone; %s Read calls, "
+                    "%s of them with an empty slice) on script %s" % (
+                        variant, json.loads(sl.splitlines()[0])["size"], evj.get("read_calls"),
+                        evj.get("read_calls_with_empty_slice"), json.dumps(evj.get("script"))[:300]))
+        else:
+            text = "recorded execution of the %s %s is not a behaviour of Scanner.tla: rejected event %s" % (variant, what, ev[:300])
+        run.violation(sig, text, path)
+    for sig, n in seen.items():
+        if n > 5:
+            print("note: %d more rejected traces of class %s not shown" % (n - 5, sig))
+
+
 def check(run):
     quick = run.tier == "quick"
     run.assumptions += [
-        "io.Reader contract: a reader returns n<=len(p); (0,nil) is allowed only finitely often",
+        "io.Reader contract: a reader returns n<=len(p); (0,nil) is allowed only finitely often (any finite number, in a row "
+        "or spread: the unchanged scanners have no no-progress guard, the corpus holds runs of up to 12 000 stalls in a row - a "
+        "guard that gives up on a healthy reader within that range is reported); a Read with an empty slice returns (0,nil)",
+        "a scan that has not returned after 5 s and again, run alone, after 15 s (the scripts need microseconds) is a hang",
         "B3 bounds: alphabet {a,CR,LF}, total stream length and buffer sizes as listed in tlc_runs",
         "batching layer: the verdict binds to the lines (at hand-out and re-read at the end), BatchStart = running count, "
         "1 <= batch length <= batch size; WHERE a batch is cut is not demanded (time-dependent; reported as coverage only)",
@@ -155,6 +251,7 @@ def check(run):
             jobs.append(lambda mod=mod, b=b: ("mc", (mod, b), run.tlc(mod, mc_cfg(ml, b), workers=4, label="%s MaxLen=%d BufSize=%d" % (mod, ml, b),
                                                                       coverage=(b == 2), timeout=3000)))
     jobs += batch_model_jobs(run, quick)
+    jobs += stall_model_jobs(run, quick)
     # B1 generators: every complete behaviour of the models
     gl = 4 if quick else 5
     for mod, bufs in (("ScannerImm_Gen", (1, 2, 3)), ("ScannerBuf_Gen", (2, 3))):
@@ -167,8 +264,12 @@ def check(run):
         return run.drv(["trace", "-out", tr, "-n", 400 if quick else 4000, "-maxlen", 300 if quick else 1500,
                         "-big", 1 if quick else 4, "-bt", 300 if quick else 3000, "-b250", 2 if quick else 12,
                         "-bfiles", 20 if quick else 200])
+    str_path = os.path.join(run.scratch, "c04-stalltrace.ndjson")
+
+    def record_stalls():
+        return run.drv(["stalltrace", "-out", str_path] + ([] if quick else ["-thorough"]))
     try:
-        results, _ = parallel([lambda: parallel(jobs, 4), record], 2)
+        results, _, _ = parallel([lambda: parallel(jobs, 4), record, record_stalls], 3)
     finally:
         if jto is None:
             os.environ.pop("JAVA_TOOL_OPTIONS", None)
@@ -179,7 +280,9 @@ def check(run):
     nvec, nbvec = 0, 0
     with open(vec_path, "w") as f, open(bvec_path, "w") as bf:
         for kind, what, r in results:
-            if kind == "mc":
+            if kind in ("smc", "sneg"):
+                stall_model_result(run, kind, what, r)
+            elif kind == "mc":
                 mod, b = what
                 require_clean(run, r, "%s buf=%d" % (mod, b))
                 if b == 2:
@@ -206,10 +309,12 @@ def check(run):
     # ---- B1 replays (Go) and B2 validation (TLC) side by side
     res_path = os.path.join(run.scratch, "c04-replay.json")
     bres_path = os.path.join(run.scratch, "c04-breplay.json")
-    _, _, (tres, tr_r) = parallel([
-        lambda: run.drv(["replay", "-in", vec_path, "-out", res_path]),
+    _, _, (tres, tr_r), (sres, str_r) = parallel([
+        lambda: run.drv(["replay", "-in", vec_path, "-out", res_path] + ([] if quick else ["-allstalls"])),
         lambda: run.drv(["breplay", "-in", bvec_path, "-out", bres_path, "-interval", 10, "-pause", 25, "-par", 512]),
-        lambda: validate_traces(run, "Scanner_Trace", tr, invariants=("Final", "ErrOnce"), xmx="12g")], 3)
+        lambda: validate_traces(run, "Scanner_Trace", tr, invariants=("Final", "ErrOnce"), xmx="12g"),
+        lambda: validate_traces(run, "Scanner_Trace", str_path, invariants=("Final", "ErrOnce"), xmx="4g",
+                                label="Scanner_Trace (long stall histories)")], 4)
     # ---- B1: every complete behaviour of the models replayed on the real scanners
     res = json.load(open(res_path))
     run.cov["traces_validated_against_impl"] += res["runs"]
@@ -217,35 +322,43 @@ def check(run):
     run.cov["distinct_nontrivial"] += res["distinct_nontrivial"]
     for s in res["samples"] or []:
         run.sample({"b1_vector": s})
+    run.cov["b1_scanner"] = {k: res.get(k) for k in ("runs", "stall_runs", "max_stalls_in_a_script", "hangs_confirmed",
+                                                     "skipped_after_hangs", "slow_not_hung")}
+    if not res["mismatches"] and (res.get("stall_runs", 0) < (20000 if quick else 100000) or res.get("max_stalls_in_a_script", 0) < 12000):
+        raise Inconclusive("replay did not exercise long stall histories: %s" % run.cov["b1_scanner"])
+    seen = {}
     for m in res["mismatches"] or []:
         v = m["vector"]
-        run.violation("b1:%s:%s" % (m["variant"], m["kind"]),
-                      "scanner %s: %s on script %s (buf %d): got %s, spec tokens %s" % (
-                          m["variant"], m["kind"], [(b2s(x["d"]), x["e"]) for x in v["reads"]], v["buf"],
-                          m["got"], [b2s(t) for t in v["toks"]]), m)
+        sig = "b1:%s:%s" % (m["variant"], m["kind"])
+        seen[sig] = seen.get(sig, 0) + 1
+        if seen[sig] > 5:
+            continue
+        more = sum(1 for x in res["mismatches"] if "b1:%s:%s" % (x["variant"], x["kind"]) == sig) - 5
+        run.violation(sig, "scanner %s: %s on script %s (buf %d%s): got %s, spec tokens %s%s%s" % (
+            m["variant"], m["kind"], [(b2s(x["d"]), x["e"]) for x in v["reads"]], v["buf"],
+            ", every stall of the script served %d times in a row" % m["got"]["stall_mul"]
+            if isinstance(m["got"], dict) and m["got"].get("stall_mul", 1) > 1 else "",
+            json.dumps(m["got"])[:400], [b2s(t) for t in v["toks"]],
+            " - Scan() did not return (watchdog, confirmed by a second run alone)" if m["kind"] == "hang" else "",
+            " (%d more of this class not shown)" % more if seen[sig] == 5 and more > 0 else ""), m)
+    sk = res.get("skipped_after_hangs") or {}
+    if sk:
+        print("note: after 2 confirmed hangs per class the remaining scripts of the class were skipped: %s" % sk)
     batch_replay_report(run, json.load(open(bres_path)))
     # ---- B2: recorded random executions validated against the abstract Scanner
-    res, r = tres, tr_r
-    ntr = sum(1 for line in open(tr) if '"event":"reset"' in line)
-    run.cov["traces_validated_against_impl"] += ntr
-    run.cov["evaluations"] += ntr
-    run.cov["distinct_nontrivial"] += ntr
-    run.cov["b2_events"] = res["consumed"]
-    with open(tr) as f:
-        run.sample({"b2_trace_head": [json.loads(next(f)) for _ in range(6)]})
-    if not res["done"] and not any(b["t"] == ntr for b in res["bad"]):
-        raise Inconclusive("last trace incomplete")
-    for bad in res["bad"]:
-        sl = trace_slice(tr, bad["t"])
-        ev = open(tr).read().splitlines()[bad["l"] - 1]
-        path = run.save_replay("trace-%d.ndjson" % bad["t"], sl)
-        variant = json.loads(sl.splitlines()[0])["variant"]
-        run.violation("b2:%s:%s" % (variant, json.loads(ev)["event"]),
-                      "recorded execution of the %s %s is not a behaviour of Scanner.tla: rejected event %s" % (
-                          variant, "path" if variant.startswith("batcher-") else "scanner", ev[:300]), path)
+    b2_report(run, tr, tres, "b2", sample=True)
+    # ---- B2: long stall histories validated against the abstract Scanner (a stall is a step that changes nothing)
+    st = json.load(open(str_path + ".stats.json"))
+    run.cov["b2_stalls"] = st
+    if st["max_stalls_in_a_row"] < 12000 or st["total_stalls"] < 100000 or st["traces"] < 200:
+        raise Inconclusive("stall corpus too small: %s" % st)
+    b2_report(run, str_path, sres, "b2:stalls")
     run.cov["rule"] = ("B3: all behaviours of ScannerImm/ScannerBuf within bounds; B1: every complete model behaviour "
                        "(reader script) replayed on both real scanners, non-trivial = >1 token; "
-                       "B2: seeded random streams/chunkings/failures, one trace each; batching layer: B3 all behaviours of "
+                       "B2: seeded random streams/chunkings/failures, one trace each; stalls: B3 ScannerStall (design space guard x growth rule, "
+                       "runs of stalls, Read without room) + controls, B1 every TLC vector with stalls again with the stalls stretched to "
+                       ">= 150 / 1 100 / 12 000, B2 long stall histories (families run / each / random x 4 scanner variants x buffer sizes "
+                       "1, 2, 3, 7, 64), all scans under a watchdog; batching layer: B3 all behaviours of "
                        "ScannerBatch (scanner x batch views x timer x release) within bounds + negative controls, B1 every "
                        "complete behaviour (script with pauses, batch size 1..4,100) on the real timed path (two consumer "
                        "disciplines, every batch held to the end) and the file path, non-trivial = >1 batch; B2 random "
